@@ -240,4 +240,5 @@ def apply(c):
         ensures r is Ok ==> *old(position) <= *final(position), // @C01:cursor-monotone
             r is Ok ==> *final(position) <= data.len(), // @C01:cursor-in-bounds
             r is Ok ==> rdata_dec(data@, *old(position) as int, rdatatype, &r.unwrap(), *final(position) as int), // @C05:typed-content-decoded,C10:typed-content-decoded
+            r is Err ==> forall|v: RData, e: int| !rdata_dec(data@, *old(position) as int, rdatatype, &v, e), // @C02:accepts-what-the-spec-decodes,C11:accepts-what-the-spec-decodes
 """)
